@@ -55,9 +55,9 @@ def run(tier):
         "evaluations": sessions, "distinct_nontrivial": len(inputs) * len(phases),
         "rule": "sessions = a seed-chosen phase (before the handshake, during verification, ready; with / without tx manager, "
                 "verify-only, block request outstanding) reached with conformant messages, then 1-3 hostile inputs produced by "
-                "22 mutation operators (noise, checksum, declared length, truncation, oversized classic and extended lengths, "
+                "23 mutation operators (a third of the sessions with an alternate header handler installed; noise, checksum, declared length, truncation, oversized classic and extended lengths, "
                 "hostile counts in headers/inv/addr/tx/block/protoconf/reject, headers with arbitrary bits and timestamps, "
-                "wrong magic, non-UTF8 command, bit flips), then the connection is closed; distinct_nontrivial counts "
+                "wrong magic, non-UTF8 command, bit flips, a headers message that stops after the first of two announced headers), then the connection is closed; distinct_nontrivial counts "
                 "operator kinds x phases exercised, a conservative lower bound",
         "samples": [{"inputs_by_operator": inputs}, {"sessions_by_phase": phases}],
         "worker_crashes": crashes, "envelope_states": st["distinct"],
